@@ -44,6 +44,39 @@ def valid_case(case):
     return all(len(case[k][0]) >= 2 or not case[k][1] for k in ('a', 'b', 'c') if k in case)
 
 
+def _availability_failures(product, ver, patch, adds):
+    """Oracle shared by the CLI cases: an algorithm is recommended for addition iff the table says it appeared in a
+    version numerically <= the server's (fixed peer: curve25519-sha256@libssh.org / ssh-ed25519 / aes128-ctr / hmac-sha2-256)."""
+    from ssh_audit.ssh2_kexdb import SSH2_KexDB
+    db = SSH2_KexDB.MASTER_DB
+    multi = any(x >= 10 for x in refmodel.vtuple(ver))
+    adv = {'kex': ['curve25519-sha256@libssh.org'], 'key': ['ssh-ed25519'], 'enc': ['aes128-ctr'], 'mac': ['hmac-sha2-256']}
+    fails = []
+    for cat in ('kex', 'key', 'enc', 'mac'):
+        for name, entry in db[cat].items():
+            if name in adv[cat]:
+                continue
+            nf, nw = refmodel.static_faults(entry)
+            if nf or nw:
+                continue
+            if cat == 'key' and ('-cert-' in name or name.startswith('sk-')):
+                continue
+            if cat == 'kex' and (name.startswith('ext-info-') or name.startswith('kex-strict-')):
+                continue
+            if refmodel.is_chacha(name) or refmodel.is_cbc(name) or refmodel.is_etm(name):
+                continue   # Terrapin suppression is C04's
+            fv = refmodel.first_versions(entry)
+            if not fv or not any(p == product and not c for p, v, c in fv):
+                continue
+            if patch and any(p == product and refmodel.vtuple(v) == refmodel.vtuple(ver) for p, v, c in fv):
+                continue   # numerically equal: the patch suffix (pre-release / portable) decides, either answer is allowed
+            avail = refmodel.available_in(entry, product, ver)
+            got = name in adds.get(cat, set())
+            if got != avail:
+                fails.append(['availability-by-version' + ('-multidigit' if multi else '-singledigit'), '%s %s%s: %s %s (first appeared %r) %s recommended for addition' % (product, ver, patch, cat, name, entry[0][0], 'is' if got else 'is not')])
+    return fails
+
+
 def eval_case(case):
     case = _sound(dict(case))
     k = case['kind']
@@ -93,16 +126,48 @@ def eval_case(case):
         got = tf.get_from(product, True)
         exp = max(case['since'], key=refmodel.vtuple)
         multi = any(x >= 10 for v in case['since'] for x in refmodel.vtuple(v))
-        if got is None or refmodel.vtuple(got) != refmodel.vtuple(exp):
+        def _vt(x):
+            try:
+                return refmodel.vtuple(x)
+            except ValueError:
+                return ('not-a-version', x)
+        if got is None or _vt(got) != refmodel.vtuple(exp):
             fails.append(['compat-range-from' + ('-multidigit' if multi else ''), '%s: first-appeared versions %r -> "since %s", numeric maximum is %s' % (product, case['since'], got, exp)])
         tf2 = Timeframe()
         for v in case['since']:
             tf2.update([prefix + '0.1', prefix + v], True)
         got2 = tf2.get_till(product, True)
         exp2 = min(case['since'], key=refmodel.vtuple)
-        if got2 is None or refmodel.vtuple(got2) != refmodel.vtuple(exp2):
+        if got2 is None or _vt(got2) != refmodel.vtuple(exp2):
             fails.append(['compat-range-till' + ('-multidigit' if multi else ''), '%s: removed-in versions %r -> "till %s", numeric minimum is %s' % (product, case['since'], got2, exp2)])
         return mkres(case, nt=multi, classes=['timeframe', product], fails=fails)
+    if k == 'cli-seq':
+        # several servers of one product audited in one invocation: each one's additions follow its own version
+        import os
+        net = fakenet.FakeNet()
+        hosts = []
+        for i, (ver, patch) in enumerate(case['servers']):
+            h = 's%d' % i
+            hosts.append(h)
+            net.add(h, 22, fakenet.Server({'banner': BANNER_FMT[product] % (ver, patch), 'kex': ['curve25519-sha256@libssh.org'], 'key': ['ssh-ed25519'], 'enc': ['aes128-ctr'], 'mac': ['hmac-sha2-256']}))
+        tf = drive.tmpfile('\n'.join(hosts) + '\n')
+        try:
+            r = drive.run_cli(['-n', '-j', '--skip-rate-test', '--threads', '1', '-T', tf], net)
+        finally:
+            os.unlink(tf)
+        multi = True
+        if r.exc or r.code not in (0, 2, 3):
+            return mkres(case, nt=True, classes=['cli-seq'], fails=[['cli-run-failed', r.brief()]])
+        docs = {d['target'].split(':')[0]: d for d in json.loads(r.out)}
+        for i, (ver, patch) in enumerate(case['servers']):
+            d = docs['s%d' % i]
+            adds = {}
+            for lvl, acts in d['recommendations'].items():
+                for cat, lst in acts.get('add', {}).items():
+                    adds.setdefault(cat, set()).update(x['name'] for x in lst)
+            for f in _availability_failures(product, ver, patch, adds):
+                fails.append(['availability-depends-on-servers-audited-before' if f[0].startswith('availability') else f[0], '%r after %r: %s' % (case['servers'][i], case['servers'][:i], f[1])])
+        return mkres(case, nt=True, classes=['cli-seq', product], fails=fails[:3])
     if k == 'cli':
         from ssh_audit.ssh2_kexdb import SSH2_KexDB
         db = SSH2_KexDB.MASTER_DB
@@ -119,30 +184,9 @@ def eval_case(case):
         for lvl, acts in doc['recommendations'].items():
             for cat, lst in acts.get('add', {}).items():
                 adds.setdefault(cat, set()).update(x['name'] for x in lst)
-        adv = {'kex': spec['kex'], 'key': spec['key'], 'enc': spec['enc'], 'mac': spec['mac']}
-        for cat in ('kex', 'key', 'enc', 'mac'):
-            for name, entry in db[cat].items():
-                if name in adv[cat]:
-                    continue
-                nf, nw = refmodel.static_faults(entry)
-                if nf or nw:
-                    continue
-                if cat == 'key' and ('-cert-' in name or name.startswith('sk-')):
-                    continue
-                if cat == 'kex' and (name.startswith('ext-info-') or name.startswith('kex-strict-')):
-                    continue
-                if refmodel.is_chacha(name) or refmodel.is_cbc(name) or refmodel.is_etm(name):
-                    continue   # Terrapin suppression is C04's
-                fv = refmodel.first_versions(entry)
-                if not fv or not any(p == product and not c for p, v, c in fv):
-                    continue
-                if patch and any(p == product and refmodel.vtuple(v) == refmodel.vtuple(ver) for p, v, c in fv):
-                    continue   # numerically equal: the patch suffix (pre-release / portable) decides, either answer is allowed
-                avail = refmodel.available_in(entry, product, ver)
-                got = name in adds.get(cat, set())
-                if got != avail:
-                    fails.append(['availability-by-version' + ('-multidigit' if multi else '-singledigit'), '%s %s%s: %s %s (first appeared %r) %s recommended for addition' % (product, ver, patch, cat, name, entry[0][0], 'is' if got else 'is not')])
-        return mkres(case, nt=multi, classes=['cli', product] + (['multi-digit'] if multi else []), fails=fails[:3])
+        fails += _availability_failures(product, ver, patch, adds)
+        info = sorted((c, n) for c, ns in adds.items() for n in ns) if case.get('_want_adds') else None
+        return mkres(case, nt=multi, classes=['cli', product] + (['multi-digit'] if multi else []), fails=fails[:3], info=info)
     raise ValueError(k)
 
 
@@ -221,6 +265,17 @@ def run(ctx):
             t3 = t[:-1] + [t[-1] + 1]
             cli.append({'kind': 'cli', 'product': p, 'ver': '.'.join(map(str, t3)), 'patch': ''})
     ctx.map(cli)
+    seq = []
+    for p, s_ in vs.items():
+        for v in sorted(s_, key=refmodel.vtuple):
+            pats = [x for x in PATCHES[p] if x]
+            for pat in pats[:1]:
+                seq.append({'kind': 'cli-seq', 'product': p, 'servers': [[v, pat], [v, ''], [v, pats[-1]]]})
+                seq.append({'kind': 'cli-seq', 'product': p, 'servers': [[v, ''], [v, pat]]})
+            t = list(refmodel.vtuple(v))
+            lower = '.'.join(map(str, t[:-1] + [max(t[-1] - 1, 0)]))
+            seq.append({'kind': 'cli-seq', 'product': p, 'servers': [[lower, ''], [v, ''], [lower, '']]})
+    ctx.map(seq)
     ctx.note(cli_cases=len(cli), enumerated_pairs=len(cases))
     return ctx.finish('exploration', 'pairs/triples of version strings with 1-4 components from {0..12, 99..101, 2011..2024} and product patch suffixes (Hypothesis, plus an exhaustive 1-2 component grid); CLI banners at, just below and just above every first-appeared version in the table and at multi-digit versions; non-trivial = a component >= 10 is involved',
                       assumptions=['numeric order = Python tuple-of-int comparison; prefix-related versions (7.4 vs 7.4.0) are exempt from the sign rule, equal versions only need the order axioms'])
